@@ -13,10 +13,10 @@ tvars == <<tid, l, S>>
 Matches(e, r) ==
   /\ r.oc = e.oc
   /\ ((r.oc # "ok" \/ e.oc # "ok") \/ r.out = e.out)
-  /\ (r.failed \/ r.app = e.app)          \* after a failed launch the state is unspecified
+  /\ r.app = e.app                        \* also after a failed launch: CANCELLED
   /\ r.proc = e.proc /\ r.files = e.files /\ r.cleanups = e.cleanups /\ r.cwd = e.cwd
 
-Flags(e, r) == <<r.oc = e.oc, (r.oc # "ok" \/ e.oc # "ok") \/ r.out = e.out, r.failed \/ r.app = e.app,
+Flags(e, r) == <<r.oc = e.oc, (r.oc # "ok" \/ e.oc # "ok") \/ r.out = e.out, r.app = e.app,
                  r.proc = e.proc, r.files = e.files, r.cleanups = e.cleanups, r.cwd = e.cwd>>
 
 \* accepted iff some variant (silent refresh before / after the call) explains the event
